@@ -5,9 +5,36 @@
 #[derive(Clone, Copy)]
 pub struct TT {
     pub n: u32,
+    /// `map[p-1]` is the variable number the code under test sees for table position `p`
+    /// (strictly increasing, so every order-dependent notion is preserved); identity by default
+    pub map: [u32; 6],
 }
 
 impl TT {
+    pub fn ident(n: u32) -> TT {
+        TT { n, map: [1, 2, 3, 4, 5, 6] }
+    }
+    pub fn mapped(vs: &[u32]) -> TT {
+        let mut map = [0u32; 6];
+        for (i, &v) in vs.iter().enumerate() {
+            map[i] = v;
+        }
+        TT { n: vs.len() as u32, map }
+    }
+    pub fn is_identity(&self) -> bool {
+        (0..self.n as usize).all(|i| self.map[i] == i as u32 + 1)
+    }
+    /// table position of the variable number `v`, if it belongs to the table's universe
+    pub fn pos(&self, v: u32) -> Option<u32> {
+        (0..self.n as usize).find(|&i| self.map[i] == v).map(|i| i as u32 + 1)
+    }
+    /// variable number of a position
+    pub fn actual(&self, p: u32) -> u32 {
+        self.map[p as usize - 1]
+    }
+    pub fn lits_in_range(&self, lits: &[i32]) -> bool {
+        lits.iter().all(|l| *l != 0 && self.pos(l.unsigned_abs()).is_some())
+    }
     pub fn size(&self) -> u32 {
         1 << self.n
     }
@@ -154,7 +181,7 @@ impl TT {
     pub fn cube(&self, lits: &[i32]) -> u64 {
         let mut r = self.full();
         for &l in lits {
-            let m = self.var(l.unsigned_abs());
+            let m = self.var(self.pos(l.unsigned_abs()).unwrap());
             r &= if l > 0 { m } else { self.not(m) };
         }
         r
@@ -162,7 +189,7 @@ impl TT {
     pub fn clause(&self, lits: &[i32]) -> u64 {
         let mut r = 0;
         for &l in lits {
-            let m = self.var(l.unsigned_abs());
+            let m = self.var(self.pos(l.unsigned_abs()).unwrap());
             r |= if l > 0 { m } else { self.not(m) };
         }
         r
